@@ -86,6 +86,15 @@ def probe_class(cls, fc=None):
             out.append("UnknownType")
         except impl.exceptions.RefResolutionError:
             out.append("RefResolutionError")
+    for cand in ({"properties": {"a": {"x-only-here": 1}}}, {"properties": {"a": {"type": 12}}}, {"minLength": "x"},
+                 {"items": [{"maxLength": 1}]}):
+        try:
+            cls.check_schema(copy.deepcopy(cand))
+            out.append("accepted")
+        except impl.exceptions.SchemaError:
+            out.append("SchemaError")
+        except Exception as e:
+            out.append("raises:" + impl.tname(e))
     out.append(("id_of", cls.ID_OF({"id": "I"}), cls.ID_OF({"$id": "D"})))
     out.append(("meta", impl.cj(cls.META_SCHEMA)[:0] + str(len(impl.cj(cls.META_SCHEMA)))))
     out.append(("keywords", tuple(sorted(cls.VALIDATORS))))
@@ -94,11 +103,13 @@ def probe_class(cls, fc=None):
 
 def probe_validator(v):
     out = []
-    for x in (1.0, True, "a", "AAA", None, [], {"a": 1}, 0, 2):
+    for x in (1.0, True, "a", "AAA", None, [], {"a": 1}, 0, 2, {"p": 1}):
         try:
             out.append(tuple(sorted(impl.errkey(e) for e in v.iter_errors(x))))
         except impl.exceptions.UnknownType:
             out.append("UnknownType")
+        except impl.exceptions.RefResolutionError:
+            out.append("RefResolutionError")
     for t in ("integer", "string", "custom", "number"):
         for val in (1, 1.0, True, "a", "AAA"):
             try:
@@ -217,6 +228,11 @@ class C16(Prop):
             w.add("fc", impl.DRAFT_CHECKERS[d], "draft%d_format_checker" % d)
         w.add("fc", FC(), "FormatChecker()#0")
         w.add("val", impl.CLS[7]({"type": "integer", "minimum": 1}), "Draft7Validator instance")
+        # an existing validator OBJECT whose schema refers to a URI nobody can resolve today: its resolver was
+        # built before any later registration, so registering a class under that URI must not change its answer
+        # (a NEW resolver would see the new registration: that is the documented registry, not claimed here)
+        w.add("val", impl.CLS[4]({"properties": {"p": {"$ref": "http://verif.test/meta-fixed#"}}}),
+              "Draft4Validator instance with an unresolvable reference")
         parents = {}
         fresh_ids = 0
         for n, st_ in enumerate(case["steps"]):
@@ -302,7 +318,13 @@ class C16(Prop):
                     meta = dict(c.META_SCHEMA)
                     fresh_ids += 1
                     idk = "$id" if "$id" in meta or "id" not in meta else "id"
-                    meta[idk] = "http://verif.test/meta-%d-%d" % (n, fresh_ids)
+                    if fl == 2:
+                        meta[idk] = "http://verif.test/meta-fixed#"       # the URI one probe schema refers to
+                    elif fl == 3 and op == "create_versioned":
+                        # keeps the parent's (possibly bundled) id, but is a different metaschema
+                        meta["properties"] = dict(meta.get("properties", {}), **{"x-only-here": {"type": "null"}})
+                    else:
+                        meta[idk] = "http://verif.test/meta-%d-%d" % (n, fresh_ids)
                     kw = dict(meta_schema=meta, validators=dict(c.VALIDATORS), type_checker=c.TYPE_CHECKER, id_of=c.ID_OF)
                     if fl % 2 == 1:
                         del kw["type_checker"]      # documented: a default type checker is then used
